@@ -71,7 +71,8 @@ def run(ctx):
 
     # 3. replay into config.Load for every registered option
     r = harness(ctx, cases, "C15 replay",
-                env={"VERIF_C15_EXTRA_EVERY": ctx.pick(6, 1), "VERIF_C15_ROBUST": ctx.pick(4000, 60000)})
+                env={"VERIF_C15_EXTRA_EVERY": ctx.pick(6, 1), "VERIF_C15_DEEP_EVERY": ctx.pick(3, 1),
+                     "VERIF_C15_ROBUST": ctx.pick(4000, 60000)})
     if r is None:
         return
     s = r.summary
